@@ -670,6 +670,15 @@ Qed.
 Lemma tag_errs_fst errs off l : map fst (tag_errs errs off l) = l.
 Proof. unfold tag_errs. apply combine_fst. rewrite map_length, seq_length. reflexivity. Qed.
 
+Lemma sel_fst d want l a : In a (map fst (sel d want l)) -> In a (map fst l).
+Proof. unfold sel. destruct (d =? want)%nat; [auto | intros []]. Qed.
+
+Lemma sel2_fst d1 w1 l1 d2 w2 l2 a :
+  In a (map fst (sel d1 w1 l1 ++ sel d2 w2 l2)) -> In a (map fst l1) \/ In a (map fst l2).
+Proof.
+  rewrite map_app. intro H. apply in_app_or in H. destruct H as [H|H]; apply sel_fst in H; auto.
+Qed.
+
 Section InsertKnown.
   Variable P : maddr -> Prop.
 
@@ -714,6 +723,42 @@ Section InsertKnown.
     - apply insert_known_inv; [rewrite Hk; exact Hin | exact H1].
   Qed.
 
+  Lemma succeed_at_keys_inv k s peer l j :
+    (forall a, In a (map fst l) -> In a (keys s) /\ names peer a = true) -> SInv P k s ->
+    keys (succeed_at k s peer l j) = keys s.
+  Proof.
+    intros Hl Hs. unfold succeed_at.
+    destruct (fail_each_inv k s (firstn j l)) as [H1 Hk]; [|exact Hs|].
+    { intros a Ha. apply Hl. rewrite <- (firstn_skipn j l), map_app. apply in_or_app. now left. }
+    destruct (nth_error l j) as [[a e]|] eqn:E; [|exact Hk].
+    apply nth_error_In in E. destruct (Hl a) as [Hin Hn].
+    { change a with (fst (a, e)). apply in_map. exact E. }
+    assert (Hw : with_peer peer a = a).
+    { unfold names in Hn. destruct (last a (Other 0)) eqn:El; try discriminate.
+      exact (with_peer_last _ _ _ El). }
+    rewrite Hw. rewrite insert_known_keys.
+    - rewrite insert_known_keys; [exact Hk | rewrite Hk; exact Hin].
+    - rewrite insert_known_keys; rewrite Hk; exact Hin.
+  Qed.
+
+  Lemma mixed_outcome_inv k s peer before l j after :
+    (forall a, In a (map fst before) -> In a (keys s)) ->
+    (forall a, In a (map fst l) -> In a (keys s) /\ names peer a = true) ->
+    (forall a, In a (map fst after) -> In a (keys s)) ->
+    SInv P k s -> SInv P k (mixed_outcome k s peer before l j after).
+  Proof.
+    intros Hb Hl Ha Hs. unfold mixed_outcome.
+    destruct (fail_each_inv k s before Hb Hs) as [H1 Hk1].
+    assert (Hl1 : forall a, In a (map fst l) ->
+                            In a (keys (fail_each k s before)) /\ names peer a = true).
+    { intros a Hin. rewrite Hk1. exact (Hl a Hin). }
+    pose proof (succeed_at_inv k _ peer l j Hl1 H1) as H2.
+    pose proof (succeed_at_keys_inv k _ peer l j Hl1 H1) as Hk2.
+    destruct (fail_each_inv k (succeed_at k (fail_each k s before) peer l j) after) as [H3 _];
+      [|exact H2|exact H3].
+    intros a Hin. rewrite Hk2, Hk1. exact (Ha a Hin).
+  Qed.
+
   Lemma dial_outcome_inv k s peer outcome errs tcp ws qu :
     (forall a, In a (tcp ++ ws ++ qu) -> In a (keys s) /\ names peer a = true) -> SInv P k s ->
     SInv P k (dial_outcome k s peer outcome errs tcp ws qu).
@@ -735,10 +780,12 @@ Section InsertKnown.
       destruct (fail_each_inv k (fail_each k (fail_each k s (tag_errs errs 0 tcp)) (tag_errs errs (length tcp) ws))
                   (tag_errs errs (length tcp + length ws) qu)) as [H3 _]; [|exact H2|exact H3].
       intros a Ha. rewrite Hk2, Hk. exact (proj1 (Hq a Ha)).
-    - destruct (j0 mod (length tcp + length ws + length qu) <? length tcp)%nat.
-      + apply succeed_at_inv; assumption.
-      + destruct (j0 mod (length tcp + length ws + length qu) <? length tcp + length ws)%nat;
-          apply succeed_at_inv; assumption.
+    - unfold dial_episode.
+      destruct (j0 mod (length tcp + length ws + length qu) <? length tcp)%nat;
+        [|destruct (j0 mod (length tcp + length ws + length qu) <? length tcp + length ws)%nat];
+        (apply mixed_outcome_inv; [| assumption | | exact Hs];
+         intros a Hin; apply sel2_fst in Hin; destruct Hin as [H|H];
+         first [exact (proj1 (Ht a H)) | exact (proj1 (Hw a H)) | exact (proj1 (Hq a H))]).
   Qed.
 End InsertKnown.
 
@@ -1481,6 +1528,193 @@ Proof.
     rewrite (H6 _ Hba), (H3 _ Hba). unfold s1. apply fail_each_find; assumption.
 Qed.
 
+(* ---------- a dial whose selection spans several transports ---------- *)
+
+Lemma succeed_at_keys k s peer l j a e0 :
+  (forall x, In x (map fst l) -> In x (keys s)) -> nth_error l j = Some (a, e0) ->
+  names peer a = true -> keys (succeed_at k s peer l j) = keys s.
+Proof.
+  intros Hl Hj Hn. unfold succeed_at. rewrite Hj.
+  assert (Hw : with_peer peer a = a).
+  { unfold names in Hn. destruct (last a (Other 0)) eqn:El; try discriminate.
+    exact (with_peer_last _ _ _ El). }
+  rewrite Hw.
+  assert (Hk : keys (fail_each k s (firstn j l)) = keys s).
+  { apply fail_each_keys. intros x Hx. apply Hl.
+    rewrite <- (firstn_skipn j l), map_app. apply in_or_app. now left. }
+  assert (Ha : In a (keys s)).
+  { apply Hl. change a with (fst (a, e0)). apply in_map. exact (nth_error_In _ _ Hj). }
+  rewrite insert_known_keys.
+  - rewrite insert_known_keys; [exact Hk | rewrite Hk; exact Ha].
+  - rewrite insert_known_keys; rewrite Hk; exact Ha.
+Qed.
+
+Lemma lookup_err_in b l e : lookup_err b l = Some e -> In b (map fst l).
+Proof.
+  intro H. destruct (lookup_err b l) eqn:E; [|discriminate].
+  destruct (in_dec (fun x y => match maddr_eqb x y as r return maddr_eqb x y = r -> {x = y} + {x <> y} with
+                               | true => fun Q => left (proj1 (maddr_eqb_spec x y) Q)
+                               | false => fun Q => right (fun H0 => eq_ind (maddr_eqb x y) (fun r => r = false -> False)
+                                                  (fun Q' => diff_true_false
+                                                     (eq_trans (eq_sym (proj2 (maddr_eqb_spec x y) H0)) Q')) _ eq_refl Q)
+                               end eq_refl) b (map fst l)) as [Hin|Hnin]; [exact Hin|].
+  apply lookup_err_none in Hnin. congruence.
+Qed.
+
+Lemma nodup_app_disj {A} (l1 l2 : list A) x : NoDup (l1 ++ l2) -> In x l1 -> In x l2 -> False.
+Proof.
+  induction l1 as [|y t IH]; cbn [app In]; intros H H1 H2; [contradiction|].
+  inversion H as [|? ? Hy Hd]; subst. destruct H1 as [->|H1].
+  - apply Hy. apply in_or_app. now right.
+  - exact (IH Hd H1 H2).
+Qed.
+
+(* Any interleaving of OpenFailure events of other transports (before / after) with the one
+   ConnectionOpened event: every address reported failed carries the score of its error kind, the
+   address that connected the established score, nothing else changes. *)
+Lemma mixed_outcome_find k s peer before l j after a e0 b :
+  NoDup (keys s) -> NoDup (map fst (before ++ l ++ after)) ->
+  (forall x, In x (map fst (before ++ l ++ after)) -> In x (keys s)) ->
+  nth_error l j = Some (a, e0) -> names peer a = true ->
+  (forall e, error_score k e <> 0) -> sc_established k <> 0 ->
+  find b (mixed_outcome k s peer before l j after) =
+    if maddr_eqb b a then Some (sc_established k)
+    else match lookup_err b (before ++ firstn j l ++ after) with
+         | Some e => Some (error_score k e)
+         | None => find b s
+         end.
+Proof.
+  intros Hnd Hndl Hl Hj Hn Hf He. unfold mixed_outcome.
+  rewrite !map_app in Hndl.
+  assert (HlB : forall x, In x (map fst before) -> In x (keys s)).
+  { intros x Hx. apply Hl. rewrite !map_app. apply in_or_app. now left. }
+  assert (HlL : forall x, In x (map fst l) -> In x (keys s)).
+  { intros x Hx. apply Hl. rewrite !map_app. apply in_or_app. right. apply in_or_app. now left. }
+  assert (HlA : forall x, In x (map fst after) -> In x (keys s)).
+  { intros x Hx. apply Hl. rewrite !map_app. apply in_or_app. right. apply in_or_app. now right. }
+  assert (HndB : NoDup (map fst before)) by exact (nodup_app_l _ _ Hndl).
+  assert (HndLA : NoDup (map fst l ++ map fst after)) by exact (nodup_app_r _ _ Hndl).
+  assert (HndL : NoDup (map fst l)) by exact (nodup_app_l _ _ HndLA).
+  assert (HndA : NoDup (map fst after)) by exact (nodup_app_r _ _ HndLA).
+  set (s1 := fail_each k s before).
+  assert (Hk1 : keys s1 = keys s) by (apply fail_each_keys; exact HlB).
+  assert (HlL1 : forall x, In x (map fst l) -> In x (keys s1)) by (intros x Hx; rewrite Hk1; auto).
+  set (s2 := succeed_at k s1 peer l j).
+  assert (Hk2 : keys s2 = keys s1) by (exact (succeed_at_keys k s1 peer l j a e0 HlL1 Hj Hn)).
+  assert (HaL : In a (map fst l)).
+  { change a with (fst (a, e0)). apply in_map. exact (nth_error_In _ _ Hj). }
+  assert (Hfj : forall x, In x (map fst (firstn j l)) -> In x (map fst l)).
+  { intros x Hx. rewrite <- (firstn_skipn j l), map_app. apply in_or_app. now left. }
+  rewrite (fail_each_find k s2 after b); [| rewrite Hk2, Hk1; exact Hnd | exact HndA
+                                          | intros x Hx; rewrite Hk2, Hk1; auto | exact Hf].
+  unfold s2. rewrite (succeed_at_find k s1 peer l j a e0 b);
+    [| rewrite Hk1; exact Hnd | exact HndL | exact HlL1 | exact Hj | exact Hn | exact Hf | exact He].
+  unfold s1. rewrite (fail_each_find k s before b Hnd HndB HlB Hf).
+  rewrite !lookup_err_app.
+  destruct (maddr_eqb b a) eqn:Eba.
+  - apply maddr_eqb_spec in Eba. subst b.
+    assert (HnA : lookup_err a after = None).
+    { apply lookup_err_none. intro HA. exact (nodup_app_disj _ _ _ HndLA HaL HA). }
+    rewrite HnA. reflexivity.
+  - destruct (lookup_err b after) as [eA|] eqn:EA;
+      destruct (lookup_err b (firstn j l)) as [eL|] eqn:EL;
+      destruct (lookup_err b before) as [eB|] eqn:EB; try reflexivity; exfalso.
+    + apply lookup_err_in in EA, EB.
+      apply (nodup_app_disj _ _ b Hndl EB). apply in_or_app. now right.
+    + apply lookup_err_in in EA, EL. exact (nodup_app_disj _ _ b HndLA (Hfj _ EL) EA).
+    + apply lookup_err_in in EA, EB.
+      apply (nodup_app_disj _ _ b Hndl EB). apply in_or_app. now right.
+    + apply lookup_err_in in EL, EB.
+      apply (nodup_app_disj _ _ b Hndl EB). apply in_or_app. left. exact (Hfj _ EL).
+Qed.
+
+Definition maddr_eq_dec (x y : maddr) : {x = y} + {x <> y}.
+Proof.
+  destruct (maddr_eqb x y) eqn:E.
+  - left. apply maddr_eqb_spec. exact E.
+  - right. intros ->. rewrite maddr_eqb_refl in E. discriminate.
+Defined.
+
+(* the episode a dial outcome denotes: the roles are well formed - no address is reported twice,
+   every reported address was handed to a transport, the winning position exists *)
+Lemma dial_episode_shape errs tcp ws qu j0 before l j after :
+  dial_episode errs tcp ws qu j0 = (before, l, j, after) ->
+  NoDup (tcp ++ ws ++ qu) -> (0 < length tcp + length ws + length qu)%nat ->
+  NoDup (map fst (before ++ l ++ after)) /\
+  (forall x, In x (map fst (before ++ l ++ after)) -> In x (tcp ++ ws ++ qu)) /\
+  (forall x, In x (before ++ l ++ after) -> In x (attempts errs tcp ws qu)) /\
+  (j < length l)%nat /\
+  (l = tag_errs errs 0 tcp \/ l = tag_errs errs (length tcp) ws \/
+   l = tag_errs errs (length tcp + length ws) qu).
+Proof.
+  intros E Hnd Hpos. unfold dial_episode in E.
+  set (n := (length tcp + length ws + length qu)%nat) in *.
+  assert (Hj : (j0 mod n < n)%nat) by (apply Nat.mod_upper_bound; lia).
+  set (d1 := ((j0 / n) mod 3)%nat) in *. set (d2 := ((j0 / n / 3) mod 3)%nat) in *.
+  assert (Hlen : forall off x, length (tag_errs errs off x) = length x).
+  { intros off x. unfold tag_errs. rewrite combine_length, map_length, seq_length. lia. }
+  rewrite (NoDup_count_occ maddr_eq_dec) in Hnd.
+  destruct (j0 mod n <? length tcp)%nat eqn:C1;
+    [|destruct (j0 mod n <? length tcp + length ws)%nat eqn:C2];
+    injection E as <- <- <- <-;
+    (split; [|split; [|split; [|split]]]);
+    try (rewrite Hlen; apply Nat.ltb_lt in C1 || apply Nat.ltb_ge in C1;
+         try (apply Nat.ltb_lt in C2 || apply Nat.ltb_ge in C2); unfold n in Hj; lia);
+    try (right; left; reflexivity); try (left; reflexivity); try (right; right; reflexivity);
+    try (intros x Hx; unfold attempts; unfold sel in Hx;
+         destruct (d1 =? 1)%nat, (d1 =? 2)%nat, (d2 =? 1)%nat, (d2 =? 2)%nat;
+         cbn [app] in Hx; rewrite ?app_nil_r in Hx; rewrite ?in_app_iff in *; cbn [In] in Hx; tauto);
+    try (intros x Hx; unfold sel in Hx;
+         destruct (d1 =? 1)%nat, (d1 =? 2)%nat, (d2 =? 1)%nat, (d2 =? 2)%nat;
+         cbn [app] in Hx; rewrite ?app_nil_r in Hx; rewrite ?map_app, ?tag_errs_fst in Hx;
+         rewrite ?in_app_iff in *; cbn [In map] in Hx; tauto);
+    (apply (NoDup_count_occ maddr_eq_dec); intro x; specialize (Hnd x);
+     rewrite !count_occ_app in Hnd; unfold sel;
+     destruct (d1 =? 1)%nat eqn:E1, (d1 =? 2)%nat eqn:E2;
+     try (apply Nat.eqb_eq in E1; apply Nat.eqb_eq in E2; lia);
+     destruct (d2 =? 1)%nat eqn:E3, (d2 =? 2)%nat eqn:E4;
+     try (apply Nat.eqb_eq in E3; apply Nat.eqb_eq in E4; lia);
+     cbn [app]; rewrite ?app_nil_r; rewrite ?map_app, ?tag_errs_fst, ?count_occ_app;
+     cbn [map count_occ]; lia).
+Qed.
+
+Lemma dial_first_transport_failure_counts :
+  forall k s peer errs a w ws b,
+  NoDup (keys s) -> NoDup (a :: w :: ws) -> (forall x, In x (a :: w :: ws) -> In x (keys s)) ->
+  names peer w = true -> (forall e, error_score k e <> 0) -> sc_established k <> 0 ->
+  (* outcome: position 1 (the first WebSocket address) wins, first other transport (TCP) reports
+     its failure before the ConnectionOpened event: j0 = 1 + n * 1 with n = 2 + |ws| *)
+  find b (dial_outcome k s peer (S (3 + length ws)) errs [a] (w :: ws) []) =
+    if maddr_eqb b w then Some (sc_established k)
+    else if maddr_eqb a b then Some (error_score k (err_at errs 0))
+    else find b s.
+Proof.
+  intros k s peer errs a w ws b Hnd Hndl Hl Hn Hf He.
+  cbn [dial_outcome]. unfold dial_episode.
+  assert (Hn0 : (length [a] + length (w :: ws) + length (@nil maddr) = 2 + length ws)%nat)
+    by (cbn [length]; lia).
+  rewrite Hn0.
+  assert (Hm : ((3 + length ws) mod (2 + length ws) = 1)%nat).
+  { replace (3 + length ws)%nat with (1 + 1 * (2 + length ws))%nat by lia.
+    rewrite Nat.mod_add by lia. apply Nat.mod_small. lia. }
+  assert (Hd : ((3 + length ws) / (2 + length ws) = 1)%nat).
+  { replace (3 + length ws)%nat with (1 + 1 * (2 + length ws))%nat by lia.
+    rewrite Nat.div_add by lia. rewrite Nat.div_small by lia. lia. }
+  rewrite Hm, Hd. cbn [length Nat.ltb Nat.leb Nat.add Nat.sub].
+  change ((1 mod 3)%nat) with 1%nat. change ((1 / 3 mod 3)%nat) with 0%nat.
+  unfold sel. cbn [Nat.eqb app].
+  change (1 <? 1)%nat with false. change (1 <? S (S (length ws)))%nat with true. cbv iota beta.
+  assert (Hw0 : exists e0, nth_error (tag_errs errs 1 (w :: ws)) 0 = Some (w, e0)).
+  { unfold tag_errs. cbn [length seq map combine nth_error]. eexists. reflexivity. }
+  destruct Hw0 as [e0 Hw0].
+  rewrite (mixed_outcome_find k s peer _ _ 0 _ w e0 b Hnd); try assumption.
+  - cbn [firstn app]. unfold tag_errs at 1. cbn [length seq map combine app lookup_err].
+    destruct (maddr_eqb b w); [reflexivity|]. destruct (maddr_eqb a b); reflexivity.
+  - rewrite !map_app, !tag_errs_fst. cbn [map app]. rewrite app_nil_r. exact Hndl.
+  - intros x Hx. rewrite !map_app, !tag_errs_fst in Hx. cbn [map app] in Hx.
+    rewrite app_nil_r in Hx. exact (Hl x Hx).
+Qed.
+
 Lemma free_capacity_spec c st n limit :
   free_capacity c st n = Some limit ->
   match max_out c with
@@ -1782,16 +2016,21 @@ Proof.
   apply insert_ranged; [|exact (proj1 Hk)]. apply insert_ranged; [exact H1 | exact (proj1 Hk)].
 Qed.
 
+Lemma mixed_outcome_ranged k s peer before l j after :
+  kwf k -> ranged s -> ranged (mixed_outcome k s peer before l j after).
+Proof.
+  intros Hk Hs. unfold mixed_outcome. apply fail_each_ranged; [exact Hk|].
+  apply succeed_at_ranged; [exact Hk|]. apply fail_each_ranged; assumption.
+Qed.
+
 Lemma dial_outcome_ranged k s peer outcome errs tcp ws qu :
   kwf k -> ranged s -> ranged (dial_outcome k s peer outcome errs tcp ws qu).
 Proof.
   intros Hk Hs. unfold dial_outcome. destruct outcome as [|j0].
   - apply fail_each_ranged; [exact Hk|]. apply fail_each_ranged; [exact Hk|].
     apply fail_each_ranged; assumption.
-  - destruct (j0 mod (length tcp + length ws + length qu) <? length tcp)%nat;
-      [apply succeed_at_ranged; assumption|].
-    destruct (j0 mod (length tcp + length ws + length qu) <? length tcp + length ws)%nat;
-      apply succeed_at_ranged; assumption.
+  - destruct (dial_episode errs tcp ws qu j0) as [[[before l] j] after].
+    apply mixed_outcome_ranged; assumption.
 Qed.
 
 Definition RInv (b : book) : Prop := forall p s, get p b = Some s -> ranged s.
